@@ -96,3 +96,89 @@ def accessorOp (j : Json) : Except String Res := do
   | _ => throw "bad accessor"
 
 end Ops
+
+namespace Ops
+
+def hexOp (j : Json) : Except String Res := do
+  let s ← str j "s"
+  let m := Config.hexToAnsi s
+  let impl := (j.getObjVal? "impl").toOption.getD Json.null
+  -- predicate on the implementation's output: three decimal components 0..255
+  let wellFormed : Bool := match impl with
+    | Json.str out =>
+      let parts := out.splitOn ";"
+      parts.length == 3 && parts.all fun p => match p.toNat? with
+        | some v => v ≤ 255 && toString v == p
+        | none => false
+    | _ => true
+  pure { model := match m with | some v => js v | none => Json.null,
+         preds := [("colour_wellformed", wellFormed)],
+         nontrivial := m.isSome }
+
+def rawStr (raw : Json) (k : String) (dflt : Str) : Str :=
+  match raw.getObjVal? k with
+  | .ok (Json.str s) => s.toList
+  | _ => dflt
+
+def rawInt (raw : Json) (k : String) (dflt : Int) : Int :=
+  match raw.getObjVal? k with
+  | .ok v => (v.getInt?).toOption.getD dflt
+  | _ => dflt
+
+def diagKey : Config.Diag → String
+  | .primary => "style.colors.primary"
+  | .error => "style.colors.error"
+  | .highlight => "style.colors.highlight"
+  | .code => "style.colors.code"
+  | .hook => "media.hook"
+  | .context => "network.preload_amount"
+  | .timeout => "network.timeout_seconds"
+  | .cacheSize => "network.cache_size"
+
+def configOp (j : Json) : Except String Res := do
+  let raw ← j.getObjVal? "raw"
+  let expect ← (← j.getObjVal? "expect").getStr?
+  if expect == "toml" then
+    return { model := Json.mkObj [("reject", "toml")], nontrivial := true }
+  let d := Config.defaults
+  let hook : List Str := match raw.getObjVal? "hook" with
+    | .ok (Json.arr a) => a.toList.filterMap fun v => match v with | Json.str s => some s.toList | _ => none
+    | _ => d.hook
+  let r : Config.Raw :=
+    { hook := hook,
+      primary := rawStr raw "primary" d.primary, error := rawStr raw "error" d.error,
+      highlight := rawStr raw "highlight" d.highlight, code := rawStr raw "code_background" d.code,
+      context := rawInt raw "preload_amount" d.context, timeout := rawInt raw "timeout_seconds" d.timeout,
+      cacheSize := rawInt raw "cache_size" d.cacheSize }
+  match Config.postprocess r with
+  | .error dg => pure { model := Json.mkObj [("reject", Json.str (diagKey dg))] }
+  | .ok p =>
+    pure { model := Json.mkObj [("ok", Json.mkObj [
+      ("hook", jsl p.hook), ("primary", js p.colors.primary), ("error", js p.colors.error),
+      ("highlight", js p.colors.highlight), ("code", js p.colors.code),
+      ("context", Json.num p.context), ("timeout", Json.num p.timeoutSeconds), ("cache", Json.num p.cacheSize)])] }
+
+def hookOp (j : Json) : Except String Res := do
+  let hook ← strList j "hook"
+  let link ← str j "link"
+  let mt : Mime.MediaType := ⟨← str j "essence", ← str j "supertype", ← str j "subtype"⟩
+  let impl := (j.getObjVal? "impl").toOption.getD Json.null
+  match Hook.build hook link mt with
+  | .error _ => pure { model := panicJson }
+  | .ok c =>
+    -- predicates on the implementation's output
+    let argvI : List Str := match impl.getObjVal? "argv" with
+      | .ok (Json.arr a) => a.toList.filterMap fun v => match v with | Json.str s => some s.toList | _ => none
+      | _ => []
+    let stdinI : Str := match impl.getObjVal? "stdin" with
+      | .ok (Json.str s) => s.toList
+      | _ => []
+    let hasUrl := (hook.drop 1).contains "%url".toList
+    pure { model := Json.mkObj [("argv", jsl c.argv), ("stdin", js (c.stdin.getD []))],
+           preds := [("argv_length", argvI.length == hook.length),
+                     ("program_untouched", argvI.head? == hook.head?),
+                     ("stdin_iff_no_url", (stdinI == link && !hasUrl) || (stdinI.isEmpty && hasUrl) || (link.isEmpty)),
+                     ("link_whole_argument", !hasUrl || argvI.contains link)],
+           nontrivial := hook.length ≥ 2 }
+
+end Ops
